@@ -278,6 +278,18 @@ theorem entries_not_behind_xrefstream {s s' : WState} {cat : Obj} {info : Option
       · omega
 
 
+/-- **entries_inside_file.**  At every moment of every program no in-use entry (outside object
+streams) names an offset behind what has been written: its header lies inside the file, or it is
+the entry of the stream just opened, whose header comes next (offset = current length). -/
+theorem entries_inside_file (o : WOpts) (s0 s : WState) (ops : List Op)
+    (h0 : initState o = some s0) (hr : run s0 ops 0 = .ok s)
+    (n : Nat) (e : XEntry) (hn : s.xref.get n = some e) (hs : e.inStream = 0) (hp : 0 ≤ e.pos) :
+    e.pos.toNat ≤ s.out.length := by
+  have hi := C02fiob.run_inv ops (C02fiob.init_inv o s0 h0) hr
+  rcases hi.entries n e hn hs hp with ha | ⟨st, _, _, _, _, h5⟩
+  · have := ha.end_le; omega
+  · have := hi.pos_eq; omega
+
 -- non-vacuity of the stream-form theorems: a PDF 1.5 program (cross-reference stream) ends in a
 -- state whose tail the checker accepts; the offset it returns is the one recorded for the
 -- cross-reference stream's own number, the last one
